@@ -501,7 +501,8 @@ Inductive sv_op :=
 | SvBind (price deposit qos bal pd : Z)  (* MsgBindService: price (in denom class pd) and deposit in stake *)
 | SvCall (timeout : Z)                   (* MsgCallService, fee cap in stake *)
 | SvRespond (fee esc : Z)                (* MsgRespondService: request fee, balance of the request escrow *)
-| SvBlocks (deposits : list Z)           (* end-blockers; deposits of the bindings whose requests expire *)
+| SvBlocks (reqs : list (Z * Z))         (* end-blockers: the requests that expire, in order: (provider, deposit of its
+                                            binding before the blocks) *)
 | SvUpdate (avail : bool) (price dep add qos bal : Z)
                                          (* MsgUpdateServiceBinding (no new pricing / options): the binding met
                                             (available, stored price and deposit in stake), deposit added, new QoS (0 = keep) *)
@@ -615,11 +616,26 @@ Definition sv_slash_why (p : sv_params) (dep : Z) : Z :=
       else 0
   end.
 
-Fixpoint sv_blocks (p : sv_params) (deps : list Z) : res :=
-  match deps with
-  | [] => Done
-  | d :: rest => if sv_slash_why p d =? 0 then sv_blocks p rest else Panic (sv_slash_why p d)
+(** what one slash takes from a deposit [dep] ([Deposit.AmountOf(base)], 0 for an emptied deposit):
+    [floor(dep * fraction)]; if that exceeded the deposit, [SafeSub] reports an error and nothing changes *)
+Definition sv_slashed (p : sv_params) (dep : Z) : Z :=
+  match sv_slash p with
+  | None => 0
+  | Some s => let x := dec_truncate_int (dec_mul (dec_of_int dep) s) in if dep <? x then 0 else x
   end.
+
+(** the end blocker over the expired requests, in processing order: (provider, deposit of its binding
+    BEFORE the blocks ran).  A binding slashed earlier in the same run is met with what is left -- with
+    a fraction of exactly 1 the second expired request of a provider meets an EMPTY deposit (amount 0). *)
+Fixpoint sv_blocks_from (p : sv_params) (cur : amap Z Z) (reqs : list (Z * Z)) : res :=
+  match reqs with
+  | [] => Done
+  | (pv, d0) :: rest =>
+      let d := match get pv cur with Some d => d | None => d0 end in
+      if sv_slash_why p d =? 0 then sv_blocks_from p (set pv (d - sv_slashed p d) cur) rest
+      else Panic (sv_slash_why p d)
+  end.
+Definition sv_blocks (p : sv_params) (reqs : list (Z * Z)) : res := sv_blocks_from p [] reqs.
 
 Definition sv_path (p : sv_params) (o : sv_op) : option res :=
   match o with
@@ -833,7 +849,7 @@ Definition sv_op_wf (o : sv_op) : Prop :=
   match o with
   | SvBind price _ _ _ _ | SvUpdate _ price _ _ _ _ | SvEnable _ price _ _ _ => 0 <= price
   | SvRespond fee _ => 0 <= fee < two255
-  | SvBlocks deps => Forall (fun d => 0 <= d < two255) deps
+  | SvBlocks reqs => Forall (fun r => 0 <= snd r < two255) reqs
   | _ => True
   end.
 
